@@ -57,7 +57,7 @@ func vmCase(c map[string]any, maxSteps, maxNext int) vlib.M {
 		rec["cerr"] = err.Error()
 		return rec
 	}
-	rec["code"] = gojq.VerifDump(code)
+	rec["code"] = vlib.EncCode(gojq.VerifDump(code))
 	steps := []gojq.VerifStep{}
 	next := []any{}
 	cut := false
